@@ -10,9 +10,9 @@
 #include "../io/sess.h"
 #include "scenarios.h"
 
-#define NS 16
+#define NS 17
 #define KMOD 64
-typedef struct { const Plan* p; uint8_t* in; size_t in_size; uint8_t* dict; size_t dict_size; uint8_t* comp; size_t comp_size; uint8_t* comp2; size_t comp2_size; int level; int workers; int counting; long reached; int wrapmode; } Env;
+typedef struct { const Plan* p; uint8_t* in; size_t in_size; uint8_t* dict; size_t dict_size; uint8_t* comp; size_t comp_size; uint8_t* comp2; size_t comp2_size; int level; int workers; int counting; long reached; int wrapmode; long k, k2, base; } Env;
 
 static void arm(Env* e, long k, long k2) { if (e->wrapmode) sim_wrap_arm(k, k2); else sim_alloc_fail_at(k, k2); }
 static void disarm(Env* e) { if (e->wrapmode) sim_wrap_disarm(); else sim_alloc_fail_at(0, 0); }
@@ -190,6 +190,24 @@ static void s_mt_then_st(Env* e) {
         if (ZSTD_isError(r)) { e->reached++; RECOVER_C(c, e, dst, ZSTD_compress2(c, dst, OUTCAP(e), e->in, e->in_size), "MT/ST alternation"); } else if (!e->counting) check_rt(e, dst, r, "MT/ST alternation"); }
     ZSTD_freeCCtx(c); free(dst);
 }
+static void s_mt_prefix_reuse(Env* e) {
+    /* a context that has already run an MT frame with a prefix owns a digested copy of it; the faults start with the NEXT such frames
+     * (allocation indices count from there), the second of them with another worker count */
+    ZSTD_CCtx* c; uint8_t* dst = (uint8_t*)malloc(OUTCAP(e)); size_t r; const uint8_t* pre = e->dict ? e->dict : e->in; size_t const pn = e->dict ? e->dict_size : (e->in_size < 4096 ? e->in_size : 4096); int f;
+    disarm(e); c = ZSTD_createCCtx_advanced(sess_cmem());
+    set_basic(c, e, e->workers); ZSTD_CCtx_refPrefix(c, pre, pn); r = ZSTD_compress2(c, dst, OUTCAP(e), e->in, e->in_size);
+    if (ZSTD_isError(r)) sim_violation("compress_error", "fault-free MT frame with a prefix: %s", ZSTD_getErrorName(r));
+    e->base = calls(e); if (e->k) sim_alloc_fail_at(e->base + e->k, e->k2 ? e->base + e->k2 : 0);
+    for (f = 0; f < 2; f++) {
+        if (f == 1) ZSTD_CCtx_setParameter(c, ZSTD_c_nbWorkers, e->workers == 2 ? 3 : 2);
+        ZSTD_CCtx_refPrefix(c, pre, pn); r = ZSTD_compress2(c, dst, OUTCAP(e), e->in, e->in_size);
+        if (ZSTD_isError(r)) { e->reached++; disarm(e); ZSTD_CCtx_reset(c, ZSTD_reset_session_only); ZSTD_CCtx_refPrefix(c, pre, pn); r = ZSTD_compress2(c, dst, OUTCAP(e), e->in, e->in_size);
+            if (ZSTD_isError(r)) sim_violation("oom_not_reusable", "MT frame with a prefix on a reused context, after an injected allocation failure and a session reset: %s", ZSTD_getErrorName(r)); sim_probe("c13.recovered"); }
+        if (!e->counting) { ZSTD_DCtx* d = ZSTD_createDCtx(); uint8_t* out = (uint8_t*)malloc(e->in_size + 1); size_t q; ZSTD_DCtx_refPrefix(d, pre, pn); q = ZSTD_decompressDCtx(d, out, e->in_size, dst, r);
+            if (ZSTD_isError(q) || q != e->in_size || memcmp(out, e->in, q)) sim_violation("oom_recovery_roundtrip", "MT frame %d with a prefix on a reused context does not round-trip", f + 2); ZSTD_freeDCtx(d); free(out); }
+    }
+    ZSTD_freeCCtx(c); free(dst);
+}
 /* ---- default allocator / trainers through the libc seam ---- */
 static void make_samples(Env* e, size_t* sizes, unsigned* ns) { unsigned n = 0; size_t tot = 0; while (n < 64 && tot < e->in_size) { size_t l = e->in_size / 64 + 1; if (tot + l > e->in_size) l = e->in_size - tot; sizes[n++] = l; tot += l; } *ns = n; }
 static void check_dict_usable(Env* e, const void* d, size_t n, const char* what) {
@@ -249,6 +267,7 @@ static const SDesc k_scen[NS] = {
     { "mt_oneshot", s_mt_oneshot, 0, 1, 1 }, { "mt_stream_resize", s_mt_stream_resize, 0, 1, 1 }, { "dctx_oneshot", s_dctx_oneshot, 0, 0, 0 }, { "dstream_grow", s_dstream_grow, 0, 0, 0 },
     { "ddict", s_ddict, 0, 0, 0 }, { "multi_ddict", s_multiddict, 0, 0, 0 }, { "prefix_ldm", s_prefix_ldm, 0, 0, 0 }, { "mt_then_st", s_mt_then_st, 0, 1, 1 },
     { "train_fastcover", s_train_fastcover, 1, 0, 0 }, { "train_cover", s_train_cover, 1, 0, 0 }, { "train_legacy_finalize", s_train_legacy_finalize, 1, 0, 0 }, { "default_alloc_mt_ctx", s_default_alloc_ctx, 1, 1, 1 },
+    { "mt_prefix_reuse", s_mt_prefix_reuse, 0, 1, 1 },
 };
 
 static void env_make(Env* e, const Plan* p) {
@@ -276,11 +295,12 @@ static long run_once(const Plan* p, int counting, long k, long k2) {
     sim_alloc_reset(); sim_wrap_reset();
     sim_sched_cfg_from_plan(&cfg, p); sim_sched_reset(&cfg);
     sim_hooks_reset(p->seed); if (plan_get(p, "stall_site", 0)) sim_hook_set_stall((int)plan_get(p, "stall_site", 0), (long)plan_get(p, "stall_nth", 1), (long)plan_get(p, "stall_len", 1000));
+    e.k = k; e.k2 = k2;
     if (!e.wrapmode) arm(&e, k, k2);
     else { /* trainers arm themselves around the call */ }
     k_scen[S].fn(&e);
     disarm(&e);
-    n = calls(&e);
+    n = calls(&e) - e.base;
     sim_sched_finish(&st);
     if (!e.wrapmode) {
         if (sim_alloc_live_blocks() != 0) { char b[200]; sim_alloc_describe_live(b, sizeof b); sim_violation("oom_leak", "%s k=%ld: %ld block(s) obtained from the custom allocator never returned: %s", k_scen[S].name, k, sim_alloc_live_blocks(), b); }
